@@ -53,6 +53,8 @@ func main() {
 			runTransport(*out, *seed, *tier)
 		case "nodemonitor":
 			runNodeMonitor(*out, *seed, *tier)
+		case "e2e":
+			runE2E(*out, *seed, *tier)
 		case "stress":
 			runStress(*out, *seed, *tier)
 		case "gsnode":
